@@ -256,6 +256,8 @@ class AsyncFIXConnection:
                     "You must send first Logon(35=A)/Logout() message immediately after"
                     f" connection, got {repr(msg)}"
                 )
+            # the role goes with the state: on_state_change() may send
+            self._connection_role = ConnectionRole.INITIATOR
             await self._state_set(ConnectionState.LOGON_INITIAL_SENT)
             if self._connection_state < ConnectionState.NETWORK_CONN_ESTABLISHED:
                 # lost while the application was busy in on_state_change()
@@ -263,7 +265,6 @@ class AsyncFIXConnection:
                     "Connection was lost before the first message could be sent, got"
                     f" state: {repr(self._connection_state)}"
                 )
-            self._connection_role = ConnectionRole.INITIATOR
         else:
             if self._connection_role == ConnectionRole.INITIATOR:
                 if (
@@ -931,8 +932,8 @@ class AsyncFIXConnection:
                     #  not logon
                     await self.disconnect(ConnectionState.DISCONNECTED_BROKEN_CONN)
                     return
-                await self._state_set(ConnectionState.LOGON_INITIAL_RECV)
                 self._connection_role = ConnectionRole.ACCEPTOR
+                await self._state_set(ConnectionState.LOGON_INITIAL_RECV)
             elif (
                 self._connection_state == ConnectionState.LOGON_INITIAL_SENT
                 and msg.msg_type != FMsg.LOGON
